@@ -189,7 +189,6 @@ def add_configs(tier):
             for bases in ['mol+mol', 'wt+wt', 'mol+wt', 'wt+mol']:
                 for op in ['add', 'sum', 'iadd', 'self', 'triple']:
                     if tier == 'quick' and bases != 'mol+mol' and op not in ('add', 'iadd'): continue
-                    if tier == 'quick' and bases == 'wt+mol' and ph: continue
                     if op in ('self', 'triple') and bases in ('mol+wt', 'wt+mol'): continue
                     if op == 'triple' and ph and n == 4: continue
                     out.append({'name': f'n={n};ph={ph or "-"};basis={bases};op={op}', 'n': n, 'ph': ph, 'bases': bases, 'op': op})
@@ -295,8 +294,7 @@ def sub_configs(tier):
         for ph in ['', 'gl']:
             for bases in ['mol+mol', 'wt+wt', 'mol+wt', 'wt+mol']:
                 for op in ['sum-sub', 'sum-isub', 'isub']:
-                    if tier == 'quick' and bases not in ('mol+mol',) and (op != 'sum-sub' or ph): continue
-                    if tier == 'quick' and bases == 'wt+mol': continue
+                    if tier == 'quick' and bases != 'mol+mol' and ph and op != 'sum-sub': continue
                     out.append({'name': f'n={n};ph={ph or "-"};basis={bases};op={op}', 'n': n, 'ph': ph, 'bases': bases, 'op': op})
     return out
 
@@ -422,8 +420,10 @@ def frame_configs(tier):
     for n in ns:
         for ph in ['', 'gl']:
             for basis in ['mol', 'wt']:
-                for op in ['copy', 'rebase', 'neg', 'add0', 'addNone', 'add-noreaction', 'sub0', 'sub-noreaction']:
+                for op in ['copy', 'rebase', 'neg', 'add0', 'addNone', 'add-noreaction', 'sub0', 'sub-noreaction',
+                           'add-other-reactant', 'iadd-other-reactant', 'sub-other-reactant', 'isub-other-reactant']:
                     if tier == 'quick' and basis == 'wt' and op not in ('rebase', 'copy'): continue
+                    if tier == 'quick' and ph and op.endswith('other-reactant') and not op.startswith('i'): continue
                     out.append({'name': f'n={n};ph={ph or "-"};basis={basis};op={op}', 'n': n, 'ph': ph, 'basis': basis, 'op': op})
     return out
 
@@ -447,6 +447,23 @@ def frame(w, cfg):
     if op in ('add-noreaction', 'sub-noreaction'):
         b = build(rxn_spec(w, 'b', n, ph), 0., basis)       # a reaction that does not react (X = 0)
         pb = snap(b)
+    if op.endswith('other-reactant'):
+        # outside the quantifier (different reactants): the contract is `raises ValueError`, operands untouched
+        b = build(rxn_spec(w, 'b', n, ph, ridx=1), w.real('Xb'), other_basis(basis) if op.startswith('i') else basis)
+        pb = snap(b)
+        try:
+            if op == 'add-other-reactant': a + b
+            elif op == 'sub-other-reactant': a - b
+            elif op == 'iadd-other-reactant': a += b
+            else: a -= b
+            raised = None
+        except ValueError as e:
+            raised = str(e)
+        w.ensure('ValueError unless the other reaction does not react', w.Or(w.eq(b.X, 0.), raised is not None))
+        w.ensure('operand unchanged', same(w, pa, snap(a)))
+        w.ensure('second operand unchanged', same(w, pb, snap(b)))
+        w.canary('canary: other reaction never reacts', w.eq(b.X, 0.))
+        return
     if op == 'copy': res = a.copy()
     elif op == 'rebase': res = a.copy(other_basis(basis))
     elif op == 'neg': res = -a
@@ -550,7 +567,7 @@ def backwards(w, cfg):
     w.ensure('conversion of the reversed reaction', w.eq(res.X, Xa if Xnew is None else Xnew))
     poke(res)
     w.ensure('operand unchanged after mutating the result', same(w, pa, snap(a)))
-    w.canary('canary: reversed reaction keeps the coefficients', w.eq(st[rrow * n + ridx], -1.))
+    w.canary('canary: reversed reaction has conversion X + 1', w.eq(res.X, Xa + 1.))
 
 
 # --------------------------------------------------------------------------- reaction sets: item <-> set sharing
@@ -702,3 +719,69 @@ def set_ops(w, cfg):
         res.X[0] = res.X[0] + 1.
     w.ensure('set unchanged after mutating the result', same(w, pP, snap(P)))
     ensure_each(w, 'set acts as before', act(P, vals, nrows, n), ref)
+
+
+# --------------------------------------------------------------------------- the same through Reaction.__call__ on a real Stream
+
+_TH = {3: tmo.Thermo(_CH[3])}
+
+
+def call_configs(tier):
+    ops = ['add', 'sum-sub', 'mul', 'iadd'] if tier == 'quick' else ['add', 'sum-sub', 'mul', 'truediv', 'iadd', 'isub', 'imul']
+    return [{'name': f'op={op};basis={b}', 'op': op, 'basis': b} for op in ops for b in (['mol'] if tier == 'quick' else ['mol', 'wt'])]
+
+
+@group('C17/call_on_stream', configs=call_configs,
+       functions=[RXN + 'Reaction.__call__', RXN + 'as_material_array', RXN + 'Reaction.__add__', RXN + 'Reaction.__sub__',
+                  RXN + 'Reaction.__mul__', RXN + 'Reaction.__truediv__', RXN + 'Reaction.__iadd__', RXN + 'Reaction.__isub__',
+                  RXN + 'Reaction.__imul__', RXN + 'ParallelReaction._reaction'], l0=True)
+def call_on_stream(w, cfg):
+    """Public entry point: reaction(stream).  Restricted to the feasible region (products only, conversions in
+    [0, 1]) so that the feasibility clean-up of __call__ is the identity; the algebra is covered by the other groups."""
+    W.reset_caches()
+    n, op, basis = 3, cfg['op'], cfg['basis']
+    plant_MW(w, n)
+    Xa = w.real('Xa', lo=0., hi=1.)
+    Xb = w.real('Xb', lo=0., hi=1.)
+    k = w.real('k', lo=0., lo_strict=True)
+    pos = lambda name: {(0, 1): w.real(f'{name}.s0.1', lo=0.), (0, 2): w.real(f'{name}.s0.2', lo=0.)}
+    sa = rxn_spec(w, 'a', n, (), fixed=pos('a'))
+    sb = rxn_spec(w, 'b', n, (), fixed=pos('b'))
+    flows = [w.real(f'f.{i}', lo=0.) for i in range(n)]
+
+    def react(rxn):
+        s = tmo.Stream(None, thermo=_TH[n], phase='l')
+        for i, v in enumerate(flows): plant(s._imol.data, i, v)
+        rxn(s)
+        return dense(s._imol.data)
+
+    a, b = build(sa, Xa, basis), build(sb, Xb, basis)
+    if op in ('add', 'iadd'):
+        w.assume(w.And(w.gt(Xa + Xb, 0.), w.le(Xa + Xb, 1.)))
+        if op == 'add': c = a + b
+        else:
+            c = a; c += b
+        got = react(c)
+        expected = react(tmo.ParallelReaction([build(sa, Xa, basis), build(sb, Xb, basis)]))
+        label = '(a+b)(stream) = a and b in parallel'
+    elif op in ('sum-sub', 'isub'):
+        w.assume(w.And(w.gt(Xa, 0.), w.gt(Xb, 0.), w.le(Xa + Xb, 1.)))
+        c = a + b
+        if op == 'sum-sub': c = c - b
+        else: c -= b
+        got = react(c)
+        expected = react(build(sa, Xa, basis))
+        label = '((a+b)-b)(stream) = a(stream)'
+    else:
+        div = op == 'truediv'
+        X2 = Xa / k if div else Xa * k
+        w.assume(w.le(X2, 1.))
+        if op == 'imul':
+            c = a; c *= k
+        else:
+            c = a / k if div else k * a
+        got = react(c)
+        expected = react(build(sa, X2, basis))
+        label = 'scaled reaction acts like a with scaled conversion'
+    ensure_each(w, label, got, expected)
+    w.canary('canary: stream unchanged', w.eq(got[1], flows[1]))
